@@ -409,6 +409,35 @@ func nilness(v ssa.Value) (isNil, known bool) {
 		return x.IsNil(), true
 	case *ssa.Alloc, *ssa.MakeInterface, *ssa.MakeMap, *ssa.MakeSlice, *ssa.MakeClosure, *ssa.FieldAddr, *ssa.IndexAddr:
 		return false, true
+	case *ssa.Extract:
+		// the value result of a repository function that returns (value, error): when every return of the
+		// callee either carries a non-nil error or a value that cannot be nil, the value is non-nil wherever
+		// the caller got past its error test (the callers explored here return on err != nil)
+		if call, ok := x.Tuple.(*ssa.Call); ok && x.Index == 0 {
+			if g := call.Call.StaticCallee(); g != nil && core.InRepo(g) && len(g.Blocks) > 0 && g.Signature.Results().Len() == 2 && core.IsErrorType(g.Signature.Results().At(1).Type()) {
+				all, n := true, 0
+				core.Instrs(g, func(in ssa.Instruction) {
+					r, isR := in.(*ssa.Return)
+					if !isR || len(r.Results) != 2 {
+						return
+					}
+					n++
+					if core.ReturnsNonNilError(r) || isErrNilTest(r.Block()) {
+						return
+					}
+					if _, isExt := r.Results[0].(*ssa.Extract); isExt {
+						all = false // no recursion into further calls
+						return
+					}
+					if isNil, known := nilness(r.Results[0]); !known || isNil {
+						all = false
+					}
+				})
+				if all && n > 0 {
+					return false, true
+				}
+			}
+		}
 	case *ssa.Phi:
 		var r, set bool
 		for _, e := range x.Edges {
